@@ -1,5 +1,5 @@
 (* Topo.v — the untyped invariant `Topo` of DESIGN.md section 6, in the form the proofs of C01 / C02
-   use it (linear fragment: no DUP / split / drop).
+   use it.
 
    The OBJECTS of a configuration are its processes and its buffered messages.  Every object
    PROVIDES channels (a process: its provider list; a positive message SND/SEL/CLS/CST: the channel
